@@ -60,7 +60,12 @@ class C14Hooks(Hooks):
         for t in sim.trials:
             got = {r for (tt, r) in seen if tt == t}
             exp = self.expected_levels(t)
-            sym.check(got == exp, "C14.policy-levels", "after %s t%s: trial %d observed levels %s, policy %s expects %s" % (
+            code = "C14.policy-levels"
+            if kind == "complete" and t == tid and self.policy == "rungs" and got - exp == {self.last.get(t)}:
+                # the one deviation known on the unchanged tree (known_findings.json): on_trial_complete feeds the FINAL result
+                # of a completed trial to the searcher although its level is not a rung level
+                code = "C14.policy-levels[final-result-on-completion]"
+            sym.check(got == exp, code, "after %s t%s: trial %d observed levels %s, policy %s expects %s" % (
                 kind, tid, t, sorted(got), self.policy, sorted(exp)))
         pend = [(int(p.trial_id), int(p.resource)) for p in st.pending_evaluations]
         for (t, r) in pend:
@@ -68,6 +73,8 @@ class C14Hooks(Hooks):
                       "after %s t%s: pending entry (%d,%d) but running=%s" % (kind, tid, t, r, sim.running))
             sym.check((t, r) not in seen, "C14.pending-at-observed-level", "pending (%d,%d) is already observed" % (t, r))
         sym.check(len(set(pend)) == len(pend), "C14.pending-duplicate", str(pend))
+        if kind == "complete":
+            sym.goal("complete")
         if kind == "fail":
             sym.goal("failure")
         if kind == "resume":
@@ -82,7 +89,7 @@ class C14Hooks(Hooks):
 
 
 def h_data(sym, typ="stopping", mode="min", policy="rungs", myopic=False, ckpt=True, B=1, T=3, E=7, W=2,
-           max_fail=0, max_t=4, grace=1, rf=2):
+           max_fail=0, max_t=4, grace=1, rf=2, allow_complete=False):
     from syne_tune.optimizer.schedulers.hyperband import HyperbandScheduler
     from syne_tune.config_space import uniform
     stubs.shim_modules(["syne_tune.optimizer.schedulers.searchers.model_based_searcher"])
@@ -104,7 +111,7 @@ def h_data(sym, typ="stopping", mode="min", policy="rungs", myopic=False, ckpt=T
     if nb > 1:
         hooks.dist = OneHotBrackets(nb)
         sch.bracket_distribution = hooks.dist
-    sim = SchedSim(sym, sch, W=W, T=T, E=E, max_t=max_t, checkpointing=ckpt, max_fail=max_fail, code="C14")
+    sim = SchedSim(sym, sch, W=W, T=T, E=E, max_t=max_t, checkpointing=ckpt, max_fail=max_fail, code="C14", allow_complete=allow_complete)
     sim.resume_from_of = {}
     sim.run(hooks)
 
@@ -143,6 +150,12 @@ def obligations(tier):
         obs.append(Ob(name, "props.c14:h_data", p, bounds=dict(T=T, E=E, W=2, max_t=4, levels=[1, 2], failures="<=1", metrics="reals [-100,100]"),
                       goals=goals, split=(("c1", (0, 1, 2, 3)), ("c2", (0, 1, 2, 3, 4))), budget_s=1500,
                       stubs=("fmt", "npshim"), may_be_incomplete=not quick))
+    # scripts that END EARLY (complete after any report, also below the first rung level 2): pending entries must go
+    for policy, myopic in (("rungs", False), ("all", False)):
+        p = dict(typ="stopping", policy=policy, myopic=myopic, mode="min", grace=2, max_t=8, T=2, E=6, W=2, max_fail=0, allow_complete=True)
+        obs.append(Ob("C14.c[stopping,%s,grace=2,early-completion]" % policy, "props.c14:h_data", p,
+                      bounds=dict(T=2, E=6, W=2, max_t=8, levels=[2, 4], completion="after any report"), goals=("end", "complete"),
+                      split=(("c1", (0, 1, 2, 3)), ("c2", (0, 1, 2, 3, 4))), budget_s=1500, stubs=("fmt", "npshim")))
     if not quick:
         for typ in ("stopping", "promotion"):
             p = dict(typ=typ, policy="all", B=2, T=3, E=8, W=2, max_fail=1)
